@@ -88,7 +88,8 @@ def guardKey (who : String) : String :=
 def cfg : Cfg :=
   { rewriteDelIdx := Gen.C14.executeDeleteKeys.contains "GetDelegationsByValKey" &&
                      Gen.C14.executeSetKeys.contains "GetDelegationsByValKey"
-    rewriteUnbId := Gen.C14.executeSetKeys.contains "GetUnbondingIndexKey"
+    rewriteUnbId := Gen.C14.executeSetKeys.contains "GetUnbondingIndexKey" &&
+                    Gen.C14.unbondingIndexValues == ["GetUBDKey(to.Bytes(),valAddr)", "GetREDKey(to.Bytes(),valSrcAddr,valDstAddr)"]
     govScanAll := Gen.C14.govInactiveBound == farFuture && Gen.C14.govActiveBound == farFuture
     orderOk := Gen.C14.handlerOrder == ["check-record-from", "check-record-to", "check-from-account",
                                         "validate-all", "execute-all", "set-record"]
